@@ -12,6 +12,8 @@ NOTE = ("trusted base: Go toolchain 1.25 race detector/checkptr, the harness und
 CLAIMS = {
  'C01': ('offline provenance checker over a recorded event log (unique values + one logical clock) from free-running stress with delay injection at hook points; forced primary-hash collision classes via Config.KeyToHash; race-detector build',
          'Exploration: every value returned by Get/IterValues in every episode is traced to the Set that supplied it (same key, call began before the Get returned); key types string, []byte, named string and the integer kinds; collision classes put different keys in the same shard slot.', '5/C01'),
+ 'C02': ('offline checker over a recorded event log: no Get/IterValues that starts after a value\'s OnExit entry returns it (unique values, one logical clock), stress with probers and delay injection at every detach path; porcupine v1.3.0 linearizability check (per-key register) of overwrite/read histories on resident keys',
+         'Exploration: hundreds of thousands of hits per run are checked against the exit entries of their values on 1-8 hot keys under overwrite, overwrite-while-buffered, eviction, Del/re-insert, expiry and Clear races; register histories (<= 200 ops per key) are decided by porcupine, a timeout counts as inconclusive.', '5/C02'),
  'C03': ('quiescent-point assertion monitor (white-box snapshot under the cache\'s own locks vs RemainingCost/MaxCost), shadow accounting with fixed per-key costs, concurrent RemainingCost sampler; race-detector build',
          'Exploration: used == sum of accounted costs, RemainingCost() == MaxCost - used, accounted cost of every key == its fixed cost (+ internal overhead), RemainingCost() >= 0 at drained points and in a concurrent sampler in histories without cost-raising overwrites; cost sources explicit / Config.Cost / internal cost on and off, UpdateMaxCost raises.', '5/C03'),
  'C04': ('offline per-value life-cycle automaton over a recorded event log (issued -> accepted|refused -> (evict|reject)? -> exit) from free-running stress with delay injection; race-detector build',
@@ -20,6 +22,8 @@ CLAIMS = {
          'Exploration with a completely enumerated sub-space: every prefix over {Set, SetWithTTL, apply-one, Get} of length <= 4 on a key, then Del, every {apply-one, Get} suffix of length <= 2, then Wait and Gets, for two write-buffer sizes; plus random gated sequences with more Dels. Get must miss after Del;Wait until the next Set, and the deleted value must be passed to OnExit exactly once.', '5/C05'),
  'C06': ('reference-model monitor (map + explicit FIFO of pending writes) driven in lock-step with the applier, which is single-stepped through the vpApplierItem hook so that lag is an explicit integer; Wait early-return probe',
          'Exploration: thousands of random single-client sequences of Set/SetWithTTL/Del/Get/GetTTL/IterValues/Wait/Clear with "apply n items" steps in between; every Get/GetTTL/IterValues result and the white-box map contents must equal the model; Wait must not return before the items buffered ahead of its marker are applied.', '5/C06'),
+ 'C08': ('Go race detector (halt_on_error=0, reports de-duplicated by outermost ristretto frame pair) + per-call recover + per-call watchdog with canary; the workload shares no monitor state between goroutines so no happens-before edges are added',
+         'Exploration: 2..64 goroutines issue all 12 listed call kinds on one open cache over BufferItems/NumCounters/MaxCost/metrics/callbacks/TTL/write-buffer-size configurations with delay injection at hook points; any race report with a ristretto frame, any recovered panic, any death of a cache goroutine and any call pending > 60 s while the canary is healthy is a violation. "Bounded time" is decided in that restated form. Close is only called after the clients joined.', '5/C08'),
  'C10': ('differential reference-model monitor (map[uint64]uint64) over generated Set/DeleteBelow/IterateKV-rewrite/Reset histories, six page sizes, checkptr build',
          'Exploration: after every operation the touched keys, and periodically every key ever used plus the IterateKV multiset, are compared with a reference map; thresholds are tied to existing values so that leaf maxima are hit; histories cross node splits, page recycling and growth of the 1 MiB buffer.', '5/C10'),
  'C11': ('differential reference-model monitor ([]byte / [][]byte) over the four buffer kinds, sortedness + permutation oracle for the sorter, checkptr build',
